@@ -6,7 +6,7 @@ from itertools import product
 
 from sa import cbor_mini
 from . import generic
-from sa.absint import Evaluator, all_effects
+from sa.absint import is_alias, Evaluator, all_effects
 from sa.index import AnalysisError
 from sa.teval import Unknown, lin_key, lin_sub, linear, teval
 from sa.terms import App, Const, Ref, Sym, cases, cat_parts, subterms
@@ -44,19 +44,31 @@ def run(ctx):
     ev0 = Evaluator(repo, inline_depth=0)
     slot_rules(ctx, ev0)
     ev = ev0
-    try:
-        padding_rules(ctx, ev)
-    except AnalysisError as err:
-        # the proof rules do not recognise the form: look for a concrete counterexample by evaluating the function's result term
-        # on a grid of sizes (sound as a refutation); without one the analysis cannot stand behind a verdict
-        wit = refute_padding(ctx, ev)
-        if wit is None:
-            raise
-        fi_ = ctx.repo.func(MOD, "CachePartition.add_padding")
+    # add_padding: the result term is first evaluated on a grid of (length, block size) pairs that covers every region and boundary of
+    # the arithmetic (aligned / one byte short / short form up to 23 / two-byte form / beyond 0xFFFF).  A malformed result is a
+    # violation with the sizes as witness.  A fully evaluable, clean grid decides the obligation; the symbolic proof rules then only
+    # add strength (a form they do not recognise is reported as information).  Not evaluable: the proof rules alone decide.
+    fi_ = ctx.repo.func(MOD, "CachePartition.add_padding")
+    status, wit = padding_grid(ctx, ev)
+    if status == "witness":
         R.rule("C10-D2r padding result (refutation)", 1, "add_padding(data) = data + one well-formed padding entry, total length a multiple of the block size")
         R.fail("C10-D2r padding result (refutation)", "add_padding", mod=fi_.module, node=fi_.node, function=ctx.fq(fi_),
-               expected="data | 60 | bstr header | zeros with len(result) % eb_size == 0 and a header that declares exactly the zeros that follow",
-               found=f"len(data)={wit[0]}, eb_size={wit[1]}: {wit[2]}  (proof rules: {str(err)[:120]})")
+               expected="data | 60 | bstr header | zeros with len(result) % eb_size == 0 and a header that declares exactly the zeros that follow; "
+                        "ValueError exactly when the padding entry would exceed 0xFFFF bytes",
+               found=f"len(data)={wit[0]}, eb_size={wit[1]}: {wit[2]}")
+    elif status == "ok":
+        R.rule("C10-D2g padding result on the grid", 1, "add_padding evaluated on the grid of sizes: well-formed, aligned, rejected only beyond 0xFFFF")
+        R.ok("C10-D2g padding result on the grid", f"{wit} (length, block size) pairs")
+        with R.lenient("decided by evaluating the result term on the grid of sizes (C10-D2g)"):
+            try:
+                padding_rules(ctx, ev)
+            except AnalysisError as err:
+                R.info(f"padding proof rules: {str(err)[:160]} (obligation decided on the grid, C10-D2g)")
+        for rid_ in ("C10-D2a alignment invariant", "C10-D2b minimum padding", "C10-D2c padding header"):
+            if rid_ in R.rules:
+                R.rules[rid_].floor = min(R.rules[rid_].floor, R.rules[rid_].instances)
+    else:
+        padding_rules(ctx, ev)
     close_merge_rules(ctx, ev0)
     producers_rules(ctx)
 
@@ -82,37 +94,58 @@ def slot_rules(ctx, ev):
     parts = cat_parts(slot)
     R.rule("C10-D1a slot layout", 6, "[BF] | cbor(uri) | 5A | u32be len(data) | data, BF only for the first slot")
     first = App("attr:first_slot", (SELF,))
-    opening = parts[0] if parts else None
-    ok = isinstance(opening, App) and opening.op == "phi" and opening.args[0] == first and opening.args[1] == Const(b"\xbf") \
-        and opening.args[2] == Const(b"")
-    R.check("C10-D1a slot layout", ok, "0xBF (indefinite map) exactly when this is the first slot", mod=fi.module, node=fi.node,
-            function=fq, expected="b'\\xbf' if self.first_slot else b''", found=repr(opening)[:160])
+    uri, data = P("uri"), P("data")
+    # decided by evaluating the slot term (whatever the way the pieces are accumulated) on sample slots; shape rules as fallback
+    decided = False
+    try:
+        bad = None
+        for fs in (True, False):
+            for u_ in ("", "a", "http://example.com/" + "p" * 40):
+                for d_ in (b"", b"\x00", bytes(range(256)) + b"tail"):
+                    got = teval(slot, {first: fs, "param:uri": u_, "param:data": d_})
+                    want_ = (b"\xbf" if fs else b"") + cbor_mini.dumps(u_) + b"\x5a" + len(d_).to_bytes(4, "big") + d_
+                    if bytes(got) != want_ and bad is None:
+                        bad = (fs, u_, len(d_), bytes(got)[:24].hex(), want_[:24].hex())
+        decided = True
+        R.check("C10-D1a slot layout", bad is None, "[BF if first slot] | cbor(uri) | 5A | u32be len(data) | data", mod=fi.module, node=fi.node, function=fq,
+                expected=f"{bad[4]}… for first_slot={bad[0]}, uri={bad[1]!r}, {bad[2]} data bytes" if bad else "as specified on 18 sample slots",
+                found=f"{bad[3]}…" if bad else "")
+        for _ in range(4):
+            R.ok("C10-D1a slot layout", "evaluated on sample slots")
+    except Unknown:
+        decided = False
     cleared = [e for e in all_effects(o.effects) if isinstance(e, App) and e.op == "eff:setattr" and e.args[0] == SELF
                and e.args[1] == Const("first_slot")]
     guard_ok = False
     for e in o.effects:
         if isinstance(e, App) and e.op == "eff:if" and e.args[0] == first:
             guard_ok = any(isinstance(x, App) and x.op == "eff:setattr" and x.args[1] == Const("first_slot")
-                           and x.args[2] == Const(False) for x in e.args[1].args) and not e.args[2].args
+                           and x.args[2] == Const(False) for x in e.args[1].args) and not [
+                x for x in e.args[2].args if isinstance(x, App) and x.op == "eff:setattr"]
     R.check("C10-D1a slot layout", guard_ok and len(cleared) == 1, "first_slot is cleared in the branch that emitted 0xBF",
             mod=fi.module, node=fi.node, function=fq, expected="self.first_slot = False under the same guard", found=f"{cleared}"[:200])
-    rest = parts[1:] if ok else parts
-    uri, data = P("uri"), P("data")
-    R.check("C10-D1a slot layout", len(rest) >= 1 and rest[0] == App("cbor", (uri,)), "key = cbor(uri)", mod=fi.module,
-            node=fi.node, function=fq, expected="cbor2.dumps(uri)", found=repr(rest[0])[:120] if rest else "missing")
-    hdr = rest[1] if len(rest) > 1 else None
-    ln = rest[2] if len(rest) > 2 else None
-    hb = hdr.v[0] if isinstance(hdr, Const) and isinstance(hdr.v, bytes) and len(hdr.v) == 1 else None
-    w = bstr_header_width(hb) if hb is not None else None
-    lw = ln.args[1].v if isinstance(ln, App) and ln.op == "meth:to_bytes" and len(ln.args) > 1 and isinstance(ln.args[1], Const) else None
-    R.check("C10-D1a slot layout", hb == 0x5A and w == lw == 4, "fixed 4-byte length form: header 0x5A announces the 4 bytes that follow",
-            mod=fi.module, node=fi.node, function=fq, expected="0x5A + 4-byte length",
-            found=f"header {hdr!r} (announces {w} length bytes), {lw} bytes follow")
-    R.check("C10-D1a slot layout", isinstance(ln, App) and ln.op == "meth:to_bytes" and ln.args[0] == App("len", (data,))
-            and len(ln.args) > 2 and ln.args[2] == Const("big"), "length = len(data), big endian", mod=fi.module, node=fi.node,
-            function=fq, expected="len(data).to_bytes(4, byteorder='big')", found=repr(ln)[:160])
-    R.check("C10-D1a slot layout", len(rest) == 4 and rest[3] == data, "the payload follows unmodified and nothing else", mod=fi.module,
-            node=fi.node, function=fq, expected="… + data", found=repr(rest[3:])[:160])
+    if not decided:
+        opening = parts[0] if parts else None
+        ok = isinstance(opening, App) and opening.op == "phi" and opening.args[0] == first and opening.args[1] == Const(b"\xbf") \
+            and opening.args[2] == Const(b"")
+        R.check("C10-D1a slot layout", ok, "0xBF (indefinite map) exactly when this is the first slot", mod=fi.module, node=fi.node,
+                function=fq, expected="b'\\xbf' if self.first_slot else b''", found=repr(opening)[:160])
+        rest = parts[1:] if ok else parts
+        R.check("C10-D1a slot layout", len(rest) >= 1 and rest[0] == App("cbor", (uri,)), "key = cbor(uri)", mod=fi.module,
+                node=fi.node, function=fq, expected="cbor2.dumps(uri)", found=repr(rest[0])[:120] if rest else "missing")
+        hdr = rest[1] if len(rest) > 1 else None
+        ln = rest[2] if len(rest) > 2 else None
+        hb = hdr.v[0] if isinstance(hdr, Const) and isinstance(hdr.v, bytes) and len(hdr.v) == 1 else None
+        w = bstr_header_width(hb) if hb is not None else None
+        lw = ln.args[1].v if isinstance(ln, App) and ln.op == "meth:to_bytes" and len(ln.args) > 1 and isinstance(ln.args[1], Const) else None
+        R.check("C10-D1a slot layout", hb == 0x5A and w == lw == 4, "fixed 4-byte length form: header 0x5A announces the 4 bytes that follow",
+                mod=fi.module, node=fi.node, function=fq, expected="0x5A + 4-byte length",
+                found=f"header {hdr!r} (announces {w} length bytes), {lw} bytes follow")
+        R.check("C10-D1a slot layout", isinstance(ln, App) and ln.op == "meth:to_bytes" and ln.args[0] == App("len", (data,))
+                and len(ln.args) > 2 and ln.args[2] == Const("big"), "length = len(data), big endian", mod=fi.module, node=fi.node,
+                function=fq, expected="len(data).to_bytes(4, byteorder='big')", found=repr(ln)[:160])
+        R.check("C10-D1a slot layout", len(rest) == 4 and rest[3] == data, "the payload follows unmodified and nothing else", mod=fi.module,
+                node=fi.node, function=fq, expected="… + data", found=repr(rest[3:])[:160])
 
     R.rule("C10-D3a duplicate rejection", 3, "a URI already present raises before anything is recorded")
     dup = [r for r in raises if any(isinstance(c, App) and c.op == "in" and c.args[0] == uri for c in r.conds)]
@@ -123,11 +156,11 @@ def slot_rules(ctx, ev):
     for r in dup:
         recorded = [e for e in all_effects(r.effects) if isinstance(e, App) and (
             (e.op == "eff:setattr" and e.args[1] == Const("cache_data")) or
-            (e.op == "eff:call" and isinstance(e.args[0], App) and e.args[0].op == "meth:append"))]
+            (e.op == "eff:call" and isinstance(e.args[0], App) and e.args[0].op == "meth:append" and is_alias(e.args[0].args[0])))]
         R.check("C10-D3a duplicate rejection", not recorded, "nothing appended before the rejection", mod=fi.module, node=r.node,
                 function=fq, expected="raise dominates uris.append and cache_data +=", found=f"{recorded}"[:200])
     app = [e.args[0] for e in all_effects(o.effects) if isinstance(e, App) and e.op == "eff:call" and isinstance(e.args[0], App)
-           and e.args[0].op == "meth:append"]
+           and e.args[0].op == "meth:append" and is_alias(e.args[0].args[0])]  # appends to the object's state, not to local lists
     R.check("C10-D3a duplicate rejection", len(app) == 1 and app[0].args[0] == App("attr:uris", (SELF,)) and app[0].args[1] == uri,
             "the accepted URI is remembered", mod=fi.module, node=fi.node, function=fq, expected="self.uris.append(uri)", found=f"{app}"[:200])
 
@@ -197,46 +230,64 @@ def feasible_below(Pterm, conds, P0, B, n):
     return witnesses
 
 
-def refute_padding(ctx, ev):
-    """Evaluate add_padding's outcome terms for concrete sizes; returns (len, eb, what) for the first malformed result."""
+def padding_grid(ctx, ev):
+    """Evaluate add_padding's outcome terms for concrete sizes.  ("witness", (len, eb, what)) for the first malformed result,
+    ("ok", number of pairs) when every pair evaluates and is well-formed, ("unknown", None) when a term cannot be evaluated."""
     from sa.teval import Raised, Unknown, teval
     fi = ctx.repo.func(MOD, "CachePartition.add_padding")
     outs = ev.outcomes(fi)
     EB = App("attr:eb_size", (SELF,))
-    for eb in (1, 2, 3, 4, 7, 8, 12, 16, 24, 25, 26, 31, 32, 48, 64, 100, 128, 192, 193, 255, 256, 257, 500, 1024, 4096):
-        lens = sorted({n for n in (0, 1, 2, 3, eb - 2, eb - 1, eb, eb + 1, eb + 2, 2 * eb - 2, 2 * eb - 1, 2 * eb, 3 * eb + 5, 5 * eb - 1, 23, 24, 25, 255, 256, 257)
-                       if n >= 0} | set(range(0, min(eb, 40))))
+    n_pairs = 0
+    for eb in (1, 2, 3, 4, 7, 8, 12, 16, 22, 23, 24, 25, 26, 27, 31, 32, 48, 64, 100, 128, 192, 193, 255, 256, 257, 500, 1024, 4096,
+               65534, 65535, 65536, 65537, 65538, 70000):
+        lens = sorted({n for n in (0, 1, 2, 3, eb - 3, eb - 2, eb - 1, eb, eb + 1, eb + 2, 2 * eb - 2, 2 * eb - 1, 2 * eb, 3 * eb + 5, 5 * eb - 1, 23, 24, 25, 255, 256, 257)
+                       if 0 <= n <= 400000} | set(range(0, min(eb, 40))))
         for n in lens:
             data = bytes([0xA5]) * n
             env = {P("data"): data, EB: eb}
+            pad = (eb - n % eb) % eb
+            if pad == 1:
+                pad += eb
+            must_raise = pad > 0xFFFF
             chosen = None
+            n_pairs += 1
             try:
                 for o in outs:
                     if all(bool(teval(c, env)) for c in o.conds):
                         chosen = o
                         break
                 if chosen is None:
-                    return None
+                    return "unknown", None
                 if chosen.kind == "raise":
-                    return n, eb, "raises although a padding of at most eb_size + 1 bytes is needed"
+                    if must_raise:
+                        continue
+                    return "witness", (n, eb, f"raises although a padding entry of {pad} bytes (<= 0xFFFF) is needed")
                 v = teval(chosen.value, env)
             except Raised:
-                return n, eb, "raises"
+                if must_raise:
+                    continue
+                return "witness", (n, eb, "raises")
             except Unknown:
-                return None
+                return "unknown", None
             except Exception as e:  # the evaluated expression itself fails for these sizes (e.g. byte value out of range)
-                return n, eb, f"the result expression fails: {type(e).__name__}: {e}"
+                if must_raise:
+                    continue  # some exception where the specification wants a ValueError: the class is judged by the proof rules
+                return "witness", (n, eb, f"the result expression fails: {type(e).__name__}: {e}")
             if not isinstance(v, (bytes, bytearray)):
-                return None
+                return "unknown", None
+            if must_raise:
+                return "witness", (n, eb, f"a padding entry of {pad} bytes is emitted although its length does not fit the two-byte form")
             if len(v) % eb != 0:
-                return n, eb, f"result length {len(v)} is not a multiple of the block size"
+                return "witness", (n, eb, f"result length {len(v)} is not a multiple of the block size")
             if v[:n] != data:
-                return n, eb, "the slot bytes are modified"
+                return "witness", (n, eb, "the slot bytes are modified")
             tail = v[n:]
+            if len(tail) != pad:
+                return "witness", (n, eb, f"{len(tail)} padding bytes instead of {pad}")
             if not tail:
                 continue
             if len(tail) < 2 or tail[0] != 0x60:
-                return n, eb, f"padding entry does not start with the empty key (0x60): {tail[:4].hex()}"
+                return "witness", (n, eb, f"padding entry does not start with the empty key (0x60): {tail[:4].hex()}")
             b = tail[1]
             if 0x40 <= b <= 0x57:
                 hl, dl = 2, b - 0x40
@@ -247,10 +298,10 @@ def refute_padding(ctx, ev):
             elif b == 0x5A and len(tail) >= 6:
                 hl, dl = 6, int.from_bytes(tail[2:6], "big")
             else:
-                return n, eb, f"byte after the empty key is 0x{b:02x}: not a definite-length byte string header"
+                return "witness", (n, eb, f"byte after the empty key is 0x{b:02x}: not a definite-length byte string header")
             if len(tail) != hl + dl or any(tail[hl:]):
-                return n, eb, f"header declares {dl} bytes but {len(tail) - hl} follow (or they are not zero)"
-    return None
+                return "witness", (n, eb, f"header declares {dl} bytes but {len(tail) - hl} follow (or they are not zero)")
+    return "ok", n_pairs
 
 
 def padding_rules(ctx, ev):
